@@ -37,6 +37,10 @@ def load_module(prop):
 
 def _worker(args):
     prop, idx, tier, seed, only = args
+    if os.environ.get("VERIF_DEBUG_HANG"):
+        import faulthandler
+
+        faulthandler.dump_traceback_later(int(os.environ["VERIF_DEBUG_HANG"]), exit=True)
     warnings.filterwarnings("ignore")
     sys.setrecursionlimit(100000)
     from symnp.harness import CaseRunner, FuncTracker
@@ -103,8 +107,8 @@ def run_check(prop, tier, seed, jobs, only=None, quiet=False):
             if not quiet:
                 _progress(results[-1])
     else:
-        ctx = mp.get_context("fork")
-        with ctx.Pool(min(jobs, len(tasks)), maxtasksperchild=1) as pool:
+        ctx = mp.get_context("spawn")
+        with ctx.Pool(min(jobs, len(tasks)), maxtasksperchild=6) as pool:
             for r in pool.imap_unordered(_worker, tasks, chunksize=1):
                 results.append(r)
                 if not quiet:
